@@ -26,8 +26,14 @@ def probe_path(flavour):
 def cache_dir(flavour):
     p = probe_path(flavour)
     key = open(p + ".key").read()[:24]
-    d = os.path.join(VERIF, "work", "cache", key)
-    os.makedirs(d, exist_ok=True)
+    d = os.path.join(os.environ.get("VERIF_CACHE") or os.path.join(VERIF, "work", "cache"), key)
+    if not os.path.isdir(d):
+        root = os.path.dirname(d)
+        os.makedirs(d, exist_ok=True)
+        # a new tree / probe: drop the caches of older ones (keep the three most recent)
+        old = sorted((os.path.getmtime(os.path.join(root, x)), x) for x in os.listdir(root) if os.path.isdir(os.path.join(root, x)))
+        for _, x in old[:-3]:
+            shutil.rmtree(os.path.join(root, x), ignore_errors=True)
     return d
 
 
